@@ -39,6 +39,39 @@ func c05SparseState(adj [][]bool, spare int) *SparseGraph {
 	return g
 }
 
+// c05Scribble writes garbage into all spare capacity the graph owns (between len
+// and cap of its slices).  Part of the representation invariant is that this
+// memory belongs to nobody else: if two neighbour lists (or a copy and its
+// source) overlap in capacity, the observers checked afterwards change.
+func c05Scribble(g EditableGraph) {
+	switch h := g.(type) {
+	case *SparseGraph:
+		for v := range h.Neighbourhoods {
+			nb := []int(h.Neighbourhoods[v])
+			full := nb[:cap(nb)]
+			for k := len(nb); k < len(full); k++ {
+				full[k] = rt.Int("scribble")
+			}
+		}
+		d := h.DegreeSequence
+		fd := d[:cap(d)]
+		for k := len(d); k < len(fd); k++ {
+			fd[k] = rt.Int("scribble")
+		}
+	case *DenseGraph:
+		e := h.Edges
+		fe := e[:cap(e)]
+		for k := len(e); k < len(fe); k++ {
+			fe[k] = rt.Byte("scribble")
+		}
+		d := h.DegreeSequence
+		fd := d[:cap(d)]
+		for k := len(d); k < len(fd); k++ {
+			fd[k] = rt.Int("scribble")
+		}
+	}
+}
+
 func c05Step(N int, sparse bool) {
 	n := rt.Choice("n", N+1)
 	adj := vgAdj(n, vgBits(n))
@@ -62,6 +95,7 @@ func c05Step(N int, sparse bool) {
 		if i != j {
 			adj[i][j], adj[j][i] = true, true
 		}
+		c05Scribble(g)
 		vgAgree(g, adj, what+" AddEdge")
 	case 1: // RemoveEdge
 		rt.Assume(n >= 1)
@@ -71,6 +105,7 @@ func c05Step(N int, sparse bool) {
 		if i != j {
 			adj[i][j], adj[j][i] = false, false
 		}
+		c05Scribble(g)
 		vgAgree(g, adj, what+" RemoveEdge")
 	case 2: // RemoveVertex
 		rt.Assume(n >= 1)
@@ -89,6 +124,7 @@ func c05Step(N int, sparse bool) {
 				na[a][b] = adj[keep[a]][keep[b]]
 			}
 		}
+		c05Scribble(g)
 		vgAgree(g, na, what+" RemoveVertex")
 		// the structure must remain editable: add the vertex back
 		g.AddVertex(nil)
@@ -101,6 +137,7 @@ func c05Step(N int, sparse bool) {
 				}
 			}
 		}
+		c05Scribble(g)
 		vgAgree(g, nb, what+" RemoveVertex+AddVertex")
 	case 3: // AddVertex
 		nbrs := vgSeq("nbr", n, n)
@@ -118,13 +155,16 @@ func c05Step(N int, sparse bool) {
 		for _, u := range nbrs {
 			na[u][n], na[n][u] = true, true
 		}
+		c05Scribble(g)
 		vgAgree(g, na, what+" AddVertex")
 		for k := range arg {
 			rt.Check(arg[k] == nbrs[k], what+" AddVertex modified its argument")
 		}
 	case 4: // Copy
 		c := g.Copy()
+		c05Scribble(c)
 		vgAgree(c, adj, what+" Copy")
+		vgAgree(g, adj, what+" Copy (source)")
 		c05Independent(g, c, adj, vgCopyAdj(adj), what+" Copy")
 	case 5: // InducedSubgraph
 		V := vgSeq("V", n, n)
@@ -137,6 +177,7 @@ func c05Step(N int, sparse bool) {
 				ha[a][b] = adj[V[a]][V[b]]
 			}
 		}
+		c05Scribble(h)
 		vgAgree(h, ha, what+" InducedSubgraph")
 		vgAgree(g, adj, what+" InducedSubgraph (source)")
 		c05Independent(g, h, adj, ha, what+" InducedSubgraph")
@@ -179,3 +220,110 @@ func H_c05_dense_q()  { c05Step(3, false) }
 func H_c05_sparse_q() { c05Step(3, true) }
 func H_c05_dense_t()  { c05Step(4, false) }
 func H_c05_sparse_t() { c05Step(4, true) }
+
+// c05Apply performs one symbolic edit on g (whose model is adj) and returns the new model.
+func c05Apply(g EditableGraph, adj [][]bool, what string) [][]bool {
+	n := len(adj)
+	switch rt.Choice("edit", 4) {
+	case 0:
+		if n == 0 {
+			return adj
+		}
+		i := rt.Concrete(rt.IntIn("i", 0, n-1))
+		j := rt.Concrete(rt.IntIn("j", 0, n-1))
+		g.AddEdge(i, j)
+		if i != j {
+			adj[i][j], adj[j][i] = true, true
+		}
+	case 1:
+		if n == 0 {
+			return adj
+		}
+		i := rt.Concrete(rt.IntIn("i", 0, n-1))
+		j := rt.Concrete(rt.IntIn("j", 0, n-1))
+		g.RemoveEdge(i, j)
+		if i != j {
+			adj[i][j], adj[j][i] = false, false
+		}
+	case 2:
+		if n == 0 {
+			return adj
+		}
+		v := rt.Concrete(rt.IntIn("v", 0, n-1))
+		g.RemoveVertex(v)
+		na := make([][]bool, 0, n-1)
+		for a := 0; a < n; a++ {
+			if a == v {
+				continue
+			}
+			row := make([]bool, 0, n-1)
+			for b := 0; b < n; b++ {
+				if b != v {
+					row = append(row, adj[a][b])
+				}
+			}
+			na = append(na, row)
+		}
+		adj = na
+	case 3:
+		nbrs := vgSeq("nbr", n, n)
+		g.AddVertex(append([]int{}, nbrs...))
+		na := make([][]bool, n+1)
+		for a := range na {
+			na[a] = make([]bool, n+1)
+			for b := range na {
+				if a < n && b < n {
+					na[a][b] = adj[a][b]
+				}
+			}
+		}
+		for _, u := range nbrs {
+			na[u][n], na[n][u] = true, true
+		}
+		adj = na
+	}
+	c05Scribble(g)
+	vgAgree(g, adj, what)
+	return adj
+}
+
+// c05Hist: Copy / InducedSubgraph followed by K symbolic edits of the result, then
+// one edit of the source; both must keep agreeing with their own models.
+func c05Hist(N, K int, sparse bool) {
+	n := rt.Choice("n", N+1)
+	adj := vgAdj(n, vgBits(n))
+	var g EditableGraph
+	if sparse {
+		g = vgSparse(adj)
+	} else {
+		g = vgDense(adj)
+	}
+	var h EditableGraph
+	var ha [][]bool
+	if rt.Choice("derive", 2) == 0 {
+		h = g.Copy()
+		ha = vgCopyAdj(adj)
+	} else {
+		V := vgSeq("V", n, n)
+		h = g.InducedSubgraph(append([]int{}, V...))
+		ha = make([][]bool, len(V))
+		for a := range ha {
+			ha[a] = make([]bool, len(V))
+			for b := range ha {
+				ha[a][b] = adj[V[a]][V[b]]
+			}
+		}
+	}
+	for k := 0; k < K; k++ {
+		ha = c05Apply(h, ha, "edit of a derived graph")
+		vgAgree(g, adj, "editing a derived graph changed its source")
+	}
+	adj = c05Apply(g, adj, "edit of the source")
+	vgAgree(h, ha, "editing the source changed a derived graph")
+	rt.Reach("end")
+}
+
+func H_c05_hist_dense_q()  { c05Hist(2, 2, false) }
+func H_c05_hist_sparse_q() { c05Hist(2, 2, true) }
+func H_c05_hist_dense_t()  { c05Hist(3, 2, false) }
+func H_c05_hist_sparse_t() { c05Hist(3, 2, true) }
